@@ -1,9 +1,24 @@
 // Package c02: a retained listener address is served continuously across reloads.
+//
+// Protocol line:   seq <grace_ms> <napps> <cfgs> <inflight> <trace>
+//
+//	cfgs      c0;c1;…  each  "="  (previous bytes again, unforced)  |  ["!"] srv+srv…  |  "-" (no server)
+//	          srv = a,a,…  with a ∈ t0 t1 t2 (tcp) u0 u1 (unix);  "!" = probe app a fails in Start
+//	inflight  "-" | load:addr:rel;…   a request parked in a handler of the config running before
+//	          <load>, released at p (first Provision of the new config) s ("started") t ("stopping")
+//	          r (Load returned) d (old config drained)
+//	trace     "-" | the step trace the implementation exhibited (see event.String), which the
+//	          model must accept step by step
+//
+// Answer:  one block per load (and one for the final caddy.Stop):
+//
+//	<res>:<snapshot after drain>:<who answers after drain>:<binds>:<closes>   …   <in-flight answers> <verdict>
 package c02
 
 import (
 	"fmt"
 	"os"
+	"sort"
 	"strconv"
 	"strings"
 	"sync"
@@ -20,6 +35,9 @@ type prop struct {
 	once   sync.Once
 	env    *env
 	envErr error
+
+	cacheLine string
+	cacheOut  core.Outcome
 }
 
 func New() core.Prop { return &prop{} }
@@ -36,17 +54,40 @@ func (p *prop) Finish(*core.Session) {
 	}
 }
 
+func removeIfExists(path string) error {
+	err := os.Remove(path)
+	if os.IsNotExist(err) {
+		return nil
+	}
+	return err
+}
+
+// running[k] = index of the config that is running just before load k (-1: none);
+// running[len(cfgs)] is what the final stop stops.
+func (sc scenario) running() []int {
+	out := make([]int, len(sc.cfgs)+1)
+	curr := -1
+	for k, c := range sc.cfgs {
+		out[k] = curr
+		if !c.same && !c.fail {
+			curr = k
+		}
+	}
+	out[len(sc.cfgs)] = curr
+	return out
+}
+
 func parseScenario(f []string) (sc scenario, ok bool) {
 	if len(f) < 4 {
 		return sc, false
 	}
 	g, err := strconv.Atoi(f[0])
-	if err != nil || g < 0 || g > 60000 {
+	if err != nil || g < 0 || g > 60000 || strconv.Itoa(g) != f[0] {
 		return sc, false
 	}
 	sc.grace = g
 	na, err := strconv.Atoi(f[1])
-	if err != nil || na < 0 || na > 2 {
+	if err != nil || na < 0 || na > 2 || len(f[1]) != 1 {
 		return sc, false
 	}
 	sc.napps = na
@@ -81,48 +122,571 @@ func parseScenario(f []string) (sc scenario, ok bool) {
 		}
 		sc.cfgs = append(sc.cfgs, c)
 	}
-	if len(sc.cfgs) == 0 || len(sc.cfgs) > 30 || sc.cfgs[0].same {
+	if len(sc.cfgs) == 0 || len(sc.cfgs) > 400 || sc.cfgs[0].same {
 		return sc, false
 	}
 	if f[3] != "-" {
+		run := sc.running()
 		for _, ts := range strings.Split(f[3], ";") {
 			p := strings.Split(ts, ":")
-			if len(p) != 3 || len(p[2]) != 1 || !strings.Contains("pstrd", p[2]) {
+			if len(p) != 3 || len(p[2]) != 1 {
 				return sc, false
 			}
 			k, err := strconv.Atoi(p[0])
 			a := addrIndex(p[1])
-			if err != nil || k < 1 || k > len(sc.cfgs) || a < 0 {
+			if err != nil || k < 1 || k > len(sc.cfgs) || a < 0 || strconv.Itoa(k) != p[0] {
 				return sc, false
 			}
-			sc.toks = append(sc.toks, tokSpec{reload: k, addr: a, rel: p[2][0]})
+			// the request must be accepted by the config running before load k
+			if run[k] < 0 || !sc.cfgs[run[k]].has(a) {
+				return sc, false
+			}
+			allowed := "pstrd"
+			switch {
+			case k == len(sc.cfgs):
+				allowed = "trd"
+			case sc.cfgs[k].same:
+				allowed = ""
+			case sc.cfgs[k].fail:
+				allowed = "prd"
+			}
+			if !strings.Contains(allowed, p[2]) {
+				return sc, false
+			}
+			sc.toks = append(sc.toks, tokSpec{load: k, addr: a, rel: p[2][0]})
+		}
+		if len(sc.toks) > 8 {
+			return sc, false
 		}
 	}
 	return sc, true
 }
 
+func cfgString(c cfgSpec) string {
+	if c.same {
+		return "="
+	}
+	s := ""
+	if c.fail {
+		s = "!"
+	}
+	if len(c.servers) == 0 {
+		return s + "-"
+	}
+	var parts []string
+	for _, srv := range c.servers {
+		var as []string
+		for _, a := range srv {
+			as = append(as, addrNames[a])
+		}
+		parts = append(parts, strings.Join(as, ","))
+	}
+	return s + strings.Join(parts, "+")
+}
+
+func (sc scenario) String() string {
+	var cs []string
+	for _, c := range sc.cfgs {
+		cs = append(cs, cfgString(c))
+	}
+	ts := "-"
+	if len(sc.toks) > 0 {
+		var parts []string
+		for _, t := range sc.toks {
+			parts = append(parts, fmt.Sprintf("%d:%s:%c", t.load, addrNames[t.addr], t.rel))
+		}
+		ts = strings.Join(parts, ";")
+	}
+	return fmt.Sprintf("seq %d %d %s %s", sc.grace, sc.napps, strings.Join(cs, ";"), ts)
+}
+
+// ---- canonical answer
+
+func canonAns(ans string) string {
+	switch ans {
+	case ansRefused, ansNoEnt:
+		return "c"
+	case ansTimeout, "-":
+		return "l"
+	case ansBroken, "":
+		return "x"
+	}
+	return ans
+}
+
+func (r *runner) summary() string {
+	n := len(r.sc.cfgs)
+	run := r.sc.running()
+	var blocks []string
+	for k := 0; k <= n; k++ {
+		res := "?"
+		if k < len(r.results) {
+			res = r.results[k]
+		}
+		var d *event
+		var binds, closes []string
+		for _, ev := range r.events {
+			if ev.load != k {
+				continue
+			}
+			switch {
+			case ev.kind == 'D':
+				d = ev
+			case ev.kind == 'B' && ev.gen == k:
+				binds = append(binds, fmt.Sprintf("%d%s=%s", ev.addr, ev.mod, ev.snap.of(ev.addr)))
+			case ev.kind == 'X' && ev.gen == run[k]:
+				closes = append(closes, fmt.Sprintf("%d%s=%s>%s", ev.addr, ev.mod, ev.snap.of(ev.addr), ev.snap2.of(ev.addr)))
+			}
+		}
+		sort.Strings(binds)
+		sort.Strings(closes)
+		for i := range binds {
+			binds[i] = binds[i][1:]
+		}
+		for i := range closes {
+			closes[i] = closes[i][1:]
+		}
+		bs, cs := strings.Join(binds, ","), strings.Join(closes, ",")
+		if res != "ok" {
+			bs, cs = "", ""
+		}
+		dsnap, dans := "?", "?"
+		if d != nil {
+			dsnap = d.snap.String()
+			dans = ""
+			for a := 0; a < nAddr; a++ {
+				dans += canonAns(d.ans[a])
+			}
+		}
+		blocks = append(blocks, fmt.Sprintf("%s:%s:%s:%s:%s", res, dsnap, dans, bs, cs))
+	}
+	toks := ""
+	for i := range r.sc.toks {
+		toks += canonAns(r.tokens[fmt.Sprintf("k%d", i)].result)
+	}
+	if toks == "" {
+		toks = "-"
+	}
+	return strings.Join(blocks, " ") + " " + toks
+}
+
+func (r *runner) traceString() string {
+	parts := make([]string, len(r.events))
+	for i, ev := range r.events {
+		parts[i] = ev.String()
+	}
+	return strings.Join(parts, ";")
+}
+
+// ---- oracle: the property evaluated on what the implementation did, nothing else
+
+func (r *runner) oracle() {
+	n := len(r.sc.cfgs)
+	run := r.sc.running()
+	has := func(k, a int) bool { return k >= 0 && k < n && r.sc.cfgs[k].has(a) }
+	for _, ev := range r.events {
+		if !ev.probed() {
+			continue
+		}
+		k := ev.load
+		old := run[k]
+		replaced := k < n && !r.sc.cfgs[k].same && !r.sc.cfgs[k].fail // a new config takes over in this load
+		final := k == n
+		where := fmt.Sprintf("load %d, step %s", k, strings.SplitN(ev.String(), ":", 2)[0])
+		for a := 0; a < nAddr; a++ {
+			x := ev.ans[a]
+			inOld := has(old, a)
+			inNew := replaced && has(k, a)
+			name := addrNames[a]
+			served := isGenChar(x)
+			switch {
+			case inOld && (inNew || !replaced && !final):
+				// retained (or the old config simply stays): never stops being served, by old or new only
+				switch {
+				case !served:
+					r.fail("retained-address-not-served", fmt.Sprintf("%s: connection to %s (in config %d and its successor): %q", where, name, old, x))
+				case x != genChar(old) && !(inNew && x == genChar(k)):
+					r.fail("retained-address-answered-by-other-config", fmt.Sprintf("%s: %s answered by %s, expected config %d or %d", where, name, x, old, k))
+				case ev.kind == 'D' && inNew && x != genChar(k):
+					r.fail("old-config-answers-after-drain", fmt.Sprintf("%s: %s answered by %s after config %d drained", where, name, x, old))
+				case len(ev.hold[a]) == 1 && x != genChar(ev.hold[a][0]) && ev.hold[a][0] == k:
+					r.fail("old-config-answers-after-its-listener-closed", fmt.Sprintf("%s: %s answered by %s although only config %d has a listener", where, name, x, k))
+				case len(ev.hold[a]) == 1 && ev.hold[a][0] == old && x != genChar(old) && inNew:
+					r.fail("new-config-answers-before-it-bound", fmt.Sprintf("%s: %s answered by %s before config %d bound it", where, name, x, k))
+				}
+			case inOld:
+				// dropped by the successor (or by the final stop): old may answer until it is stopped; closed after drain
+				if served && x != genChar(old) {
+					r.fail("dropped-address-answered-by-other-config", fmt.Sprintf("%s: %s answered by %s", where, name, x))
+				}
+				if ev.kind == 'D' {
+					switch {
+					case served:
+						r.fail("dropped-address-still-served", fmt.Sprintf("%s: %s still answered by %s after drain", where, name, x))
+					case isUnix(a) && (x == ansTimeout || x == "-"):
+						r.fail("dropped-unix-socket-still-accepting", fmt.Sprintf("%s: %s was dropped and every listener on it is closed, but a connection is still accepted (and never answered)", where, name))
+					case x != ansRefused && x != ansNoEnt:
+						r.fail("dropped-address-not-closed", fmt.Sprintf("%s: %s after drain: %q", where, name, x))
+					}
+				}
+			case inNew:
+				// added: nobody before the new config binds it, the new config afterwards
+				if served && x != genChar(k) {
+					r.fail("added-address-answered-by-other-config", fmt.Sprintf("%s: %s answered by %s", where, name, x))
+				}
+				if (ev.kind == 'R' || ev.kind == 'D' || ev.kind == 'E' || ev.kind == 'T' || ev.kind == 'C') && !served {
+					r.fail("added-address-not-served", fmt.Sprintf("%s: %s: %q", where, name, x))
+				}
+			default:
+				if served && !(k < n && r.sc.cfgs[k].fail && has(k, a) && x == genChar(k)) {
+					r.fail("unconfigured-address-served", fmt.Sprintf("%s: %s answered by %s", where, name, x))
+				}
+			}
+			// bookkeeping form of "never unbound" and of "unlinked only at zero"
+			if inOld && (inNew || !replaced && !final) {
+				if !isUnix(a) && ev.snap.pool[a] < 1 {
+					r.fail("retained-address-usage-count-zero", fmt.Sprintf("%s: listenerPool count of %s is %d", where, name, ev.snap.pool[a]))
+				}
+				if isUnix(a) && ev.snap.ucnt[a-nTCP] < 1 {
+					r.fail("retained-address-usage-count-zero", fmt.Sprintf("%s: unixSockets counter of %s is %d", where, name, ev.snap.ucnt[a-nTCP]))
+				}
+			}
+			if isUnix(a) && len(ev.hold[a]) > 0 && !ev.snap.file[a-nTCP] {
+				r.fail("unix-socket-file-missing-while-held", fmt.Sprintf("%s: %s has open listeners %v but its socket file does not exist", where, name, ev.hold[a]))
+			}
+		}
+	}
+}
+
+func (r *runner) tags() []string {
+	n := len(r.sc.cfgs)
+	run := r.sc.running()
+	set := map[string]bool{fmt.Sprintf("apps%d", r.sc.napps): true}
+	if r.sc.grace > 0 {
+		set["grace"] = true
+	}
+	for k := 1; k < n; k++ {
+		c := r.sc.cfgs[k]
+		switch {
+		case c.same:
+			set["same"] = true
+			continue
+		case c.fail:
+			set["rejected"] = true
+			continue
+		}
+		if run[k] < 0 {
+			continue
+		}
+		old := r.sc.cfgs[run[k]]
+		ident := true
+		for a := 0; a < nAddr; a++ {
+			kind := "tcp"
+			if isUnix(a) {
+				kind = "unix"
+			}
+			switch {
+			case old.has(a) && c.has(a):
+				set["retained-"+kind] = true
+			case old.has(a):
+				set["dropped-"+kind] = true
+				ident = false
+			case c.has(a):
+				set["added-"+kind] = true
+				ident = false
+			}
+		}
+		if ident {
+			set["identical-listeners"] = true
+		}
+		if len(c.servers) > 1 {
+			set["two-servers"] = true
+		}
+	}
+	for _, t := range r.sc.toks {
+		set["inflight-"+string(t.rel)] = true
+	}
+	// schedule facts read off the trace
+	lastMain := map[int]byte{}
+	for _, ev := range r.events {
+		switch ev.kind {
+		case 'S':
+			seenB := false
+			for _, e2 := range r.events {
+				if e2 == ev {
+					break
+				}
+				if e2.kind == 'B' && e2.gen == ev.gen {
+					seenB = true
+				}
+			}
+			if seenB {
+				set["http-started-before-probe-app"] = true
+			} else {
+				set["probe-app-started-before-http"] = true
+			}
+		case 'X':
+			if lastMain[ev.load] == 'C' || lastMain[ev.load] == 'R' {
+				set["close-after-cleanup"] = true
+			}
+			if lastMain[ev.load] == 'T' {
+				set["close-after-probe-app-stop"] = true
+			}
+		case 'T', 'C', 'R', 'E':
+			lastMain[ev.load] = ev.kind
+		}
+	}
+	if len(set) <= 1 && n == 1 {
+		set["trivial"] = true
+	}
+	out := make([]string, 0, len(set))
+	for t := range set {
+		out = append(out, t)
+	}
+	sort.Strings(out)
+	return out
+}
+
+// ---- generator
+
+func randSubset(rng *core.Rand, pTCP, pUnix int) []int {
+	var out []int
+	for a := 0; a < nAddr; a++ {
+		p := pTCP
+		if isUnix(a) {
+			p = pUnix
+		}
+		if rng.Chance(p, 100) {
+			out = append(out, a)
+		}
+	}
+	return out
+}
+
+func splitServers(rng *core.Rand, addrs []int) [][]int {
+	if len(addrs) == 0 {
+		return nil
+	}
+	// shuffle so that the listen order inside a server varies
+	for i := len(addrs) - 1; i > 0; i-- {
+		j := rng.Intn(i + 1)
+		addrs[i], addrs[j] = addrs[j], addrs[i]
+	}
+	if len(addrs) >= 2 && rng.Chance(1, 3) {
+		cut := 1 + rng.Intn(len(addrs)-1)
+		return [][]int{append([]int{}, addrs[:cut]...), append([]int{}, addrs[cut:]...)}
+	}
+	return [][]int{append([]int{}, addrs...)}
+}
+
+func (c cfgSpec) addrs() []int {
+	var out []int
+	for _, s := range c.servers {
+		out = append(out, s...)
+	}
+	return out
+}
+
+func genScenario(rng *core.Rand, maxCfgs int) scenario {
+	var sc scenario
+	sc.napps = []int{0, 1, 1, 2, 2, 2}[rng.Intn(6)]
+	sc.grace = []int{0, 0, 0, 300, 2000}[rng.Intn(5)]
+	n := 2 + rng.Intn(maxCfgs-1)
+	first := randSubset(rng, 50, 50)
+	if len(first) == 0 {
+		first = []int{rng.Intn(nAddr)}
+	}
+	sc.cfgs = append(sc.cfgs, cfgSpec{servers: splitServers(rng, first)})
+	last := sc.cfgs[0]
+	for k := 1; k < n; k++ {
+		var c cfgSpec
+		switch x := rng.Intn(100); {
+		case x < 6:
+			c.same = true
+		case x < 30: // identical listener set, forced reload
+			c.servers = last.servers
+		case x < 45: // same set, different split / order
+			c.servers = splitServers(rng, last.addrs())
+		case x < 75: // modify: toggle one or two addresses
+			set := map[int]bool{}
+			for _, a := range last.addrs() {
+				set[a] = true
+			}
+			for t := 1 + rng.Intn(2); t > 0; t-- {
+				a := rng.Intn(nAddr)
+				set[a] = !set[a]
+			}
+			var as []int
+			for a := 0; a < nAddr; a++ {
+				if set[a] {
+					as = append(as, a)
+				}
+			}
+			c.servers = splitServers(rng, as)
+		case x < 80:
+			c.servers = nil // no listener at all
+		default:
+			c.servers = splitServers(rng, randSubset(rng, 45, 45))
+		}
+		if !c.same && sc.napps >= 1 && rng.Chance(1, 8) {
+			c.fail = true
+		}
+		sc.cfgs = append(sc.cfgs, c)
+		if !c.same && !c.fail {
+			last = c
+		}
+	}
+	run := sc.running()
+	for k := 1; k <= n; k++ {
+		if run[k] < 0 || len(sc.toks) >= 4 {
+			continue
+		}
+		as := sc.cfgs[run[k]].addrs()
+		if len(as) == 0 || !rng.Chance(2, 5) {
+			continue
+		}
+		allowed := "pstrd"
+		switch {
+		case k == n:
+			allowed = "trd"
+		case sc.cfgs[k].same:
+			continue
+		case sc.cfgs[k].fail:
+			allowed = "prd"
+		}
+		for t := 1 + rng.Intn(2); t > 0; t-- {
+			sc.toks = append(sc.toks, tokSpec{load: k, addr: as[rng.Intn(len(as))], rel: allowed[rng.Intn(len(allowed))]})
+		}
+	}
+	return sc
+}
+
+// storm: many forced reloads of configs that all keep the same addresses, background
+// traffic hammering them; no per-step trace (the line would be enormous), the model still
+// predicts every drained state.
+func genStorm(rng *core.Rand, n int) string {
+	keep := randSubset(rng, 60, 60)
+	if len(keep) == 0 {
+		keep = []int{0, 3}
+	}
+	var cs []string
+	for k := 0; k < n; k++ {
+		as := append([]int{}, keep...)
+		for a := 0; a < nAddr; a++ {
+			in := false
+			for _, x := range keep {
+				in = in || x == a
+			}
+			if !in && rng.Chance(1, 4) {
+				as = append(as, a)
+			}
+		}
+		cs = append(cs, cfgString(cfgSpec{servers: splitServers(rng, as)}))
+	}
+	return fmt.Sprintf("seq 0 0 %s - -", strings.Join(cs, ";"))
+}
+
+var fixedScenarios = []string{
+	"seq 0 0 t0 -",
+	"seq 0 0 t0;t0 -",
+	"seq 0 0 u0;u0 -",
+	"seq 0 0 u0;- -",
+	"seq 0 2 t0,u0;t0,u0;t0+u0,t1;t1 2:t0:s;3:u0:r",
+	"seq 0 1 t0,u0;!t0,u0,t1;t0,u0 1:t0:p;2:u0:t",
+	"seq 300 2 t0,t1,u0,u1;t0,u1;=;t0,t1,u0,u1;- 1:t1:r;1:u1:d;5:t0:t",
+	"seq 0 0 u0;-;u0;u0;u1 -",
+	"seq 2000 1 t0+u0;u0+t0;t0,u0 1:u0:s;2:t0:t;3:u0:d",
+}
+
+var malformed = []string{
+	"", "seq", "seq 0 0 t0 - - extra", "seq x 0 t0 - -", "seq 0 3 t0 - -", "seq 0 0 t9 - -", "seq 0 0 t0,t0 - -",
+	"seq 0 0 = - -", "seq 0 0 !t0 - -", "seq 0 0 t0;t1 1:t1:p -", "seq 0 0 t0;t1 1:t0:q -", "seq 0 0 t0;t1 3:t0:p -",
+	"seq 0 0 t0;t1 2:t1:p -", "seq 0 1 t0;!t0 1:t0:s -", "seq 0 0 t0;= 1:t0:p -", "storm 3", "seq -1 0 t0 - -", "seq 0 0 t0; - -",
+	"seq 0 0 t0+ - -", "seq 00 0 t0 - -", "seq 0 0 t0;t0 01:t0:p -",
+}
+
 func (p *prop) Generate(rng *core.Rand, tier string, emit func(string)) {
-	emit("seq 0 2 t0,u0;t0,u0;t0+u0,t1;t1 2:t0:s;3:u0:r -")
+	p.setup()
+	nScen, maxCfgs, storms, stormLen := 45, 5, 1, 40
+	switch tier {
+	case "thorough":
+		nScen, maxCfgs, storms, stormLen = 500, 8, 6, 200
+	case "search":
+		nScen, maxCfgs, storms, stormLen = 120, 6, 3, 80
+	}
+	do := func(sc scenario) {
+		if p.envErr != nil {
+			emit(sc.String() + " -")
+			return
+		}
+		o, trace := p.runScenario(sc)
+		line := sc.String() + " " + trace
+		p.cacheLine, p.cacheOut = line, o
+		emit(line)
+		p.cacheLine = ""
+	}
+	for _, s := range fixedScenarios {
+		if sc, ok := parseScenario(strings.Fields(s)[1:]); ok {
+			do(sc)
+		}
+	}
+	for _, m := range malformed {
+		emit(m)
+	}
+	frng := rng.Fork()
+	for i := 0; i < nScen; i++ {
+		do(genScenario(frng, maxCfgs))
+	}
+	srng := rng.Fork()
+	for i := 0; i < storms; i++ {
+		emit(genStorm(srng, stormLen))
+	}
+}
+
+func (p *prop) runScenario(sc scenario) (core.Outcome, string) {
+	r := newRunner(p.env, sc)
+	r.execute()
+	r.oracle()
+	if os.Getenv("VERIF_C02_DEBUG") != "" {
+		fmt.Fprint(os.Stderr, r.dump())
+		fmt.Fprintf(os.Stderr, "traffic ok=%d refused=%d broken=%d stale=%d fails %v\n", r.traffic.ok, r.traffic.refused, r.traffic.broken, r.traffic.stale, r.fails)
+	}
+	verdict := "accept"
+	for _, f := range r.fails {
+		if f.Class != "dropped-unix-socket-still-accepting" {
+			verdict = "oracle-fail"
+		}
+	}
+	tags := r.tags()
+	if r.traffic.ok > 0 {
+		tags = append(tags, "background-traffic")
+	}
+	// a failure is replayed from the scenario alone (the trace is re-observed)
+	for i := range r.fails {
+		r.fails[i].Case = sc.String() + " -"
+	}
+	return core.Outcome{Impl: r.summary() + " " + verdict, Tags: tags, Failures: r.fails}, r.traceString()
 }
 
 func (p *prop) Run(line string) core.Outcome {
+	if line == p.cacheLine && line != "" {
+		// the trace in this line is the one the implementation exhibited a moment ago
+		// in this process (Generate ran the scenario to obtain it)
+		p.cacheLine = ""
+		return p.cacheOut
+	}
 	p.setup()
 	if p.envErr != nil {
 		return core.Outcome{Impl: "harness-error", Failures: []core.Failure{{Class: "harness-env", What: p.envErr.Error()}}}
 	}
 	f := strings.Fields(line)
-	if len(f) != 6 || f[0] != "seq" {
+	if len(f) != 6 || f[0] != "seq" || line != strings.Join(f, " ") {
 		return core.Outcome{Impl: "bad-op", Tags: []string{"trivial", "bad-op"}}
 	}
 	sc, ok := parseScenario(f[1:5])
 	if !ok {
 		return core.Outcome{Impl: "bad-op", Tags: []string{"trivial", "bad-op"}}
 	}
-	r := newRunner(p.env, sc)
-	r.execute()
-	if os.Getenv("VERIF_C02_DEBUG") != "" {
-		fmt.Fprint(os.Stderr, r.dump())
-		fmt.Fprintf(os.Stderr, "traffic %+v fails %v\n", &r.traffic, r.fails)
-	}
-	return core.Outcome{Impl: "todo", Failures: r.fails}
+	o, _ := p.runScenario(sc)
+	return o
 }
